@@ -32,3 +32,12 @@ package core
 //@ interface Sender.NewView
 //@   preserves @std
 //@   ensures blockchain.storeskept() && cfgstable()
+
+// The authenticated identity of the peer a request came from (TLS certificate subject, or the
+// connection metadata without TLS): looked up in gRPC's context, touches no protocol state.
+// (peerid names it for the one request a handler invocation serves; the dummy argument only
+// gives the function a parameter)
+//@ pure func peerid(request int) hotstuff.ID
+//@ func (*RuntimeConfig).PeerIDFromContext
+//@   trusted gRPC peer / TLS / metadata lookup (external libraries); reads the configuration only
+//@   ensures result1 == nil ==> result0 == peerid(0)
